@@ -100,6 +100,9 @@ def World.applyOpens (w : World) (ops : List (Str × Nat)) : World :=
 /-- the shell's own diagnostics (`cicada: …`) are never compared -/
 def noDiag (ls : List Str) : List Str := ls.filter (fun l => !(String.ofList l).startsWith "cicada:")
 
+/-- `seed_of` of helpers/fdstage.c -/
+def seedOf (tag : Str) : Nat := tag.foldl (fun s c => (s * 31 + c.toNat) % 256) 7
+
 def natOfStr (s : Str) : Nat := s.foldl (fun n c => if c.isDigit then n * 10 + (c.toNat - 48) else n) 0
 
 /-- `fdstage <tag> op…` started with table `t`; `shellT` is the shell's table while it waits.
@@ -117,6 +120,16 @@ def helperOps (tag : Str) (t shellT : Table) : List Str → World × Bool × Nat
       let (w1, ls) := if rd then (w, []) else w.readAll ((t 0).map (·.obj))
       let w2 := ls.foldl (fun w l => w.writeTo ((t 1).map (·.obj)) l) w1
       helperOps tag t shellT rest (w2.note s!"I:{String.ofList tag}:{",".intercalate ((noDiag ls).map hexStr)}", true, st)
+    | 'w' :: v =>
+      -- `w<N>`: N pattern bytes, written as one pseudo-line naming the pattern (seed from the tag) and its length
+      helperOps tag t shellT rest (w.writeTo ((t 1).map (·.obj)) ("#blob:".toList ++ (toString (seedOf tag)).toList ++ [':'] ++ (toString (natOfStr v)).toList), rd, st)
+    | 'r' :: _ =>
+      let (w1, ls) := if rd then (w, []) else w.readAll ((t 0).map (·.obj))
+      helperOps tag t shellT rest (w1.note s!"D:{String.ofList tag}:{",".intercalate ((noDiag ls).map hexStr)}", true, st)
+    | 'f' :: _ =>
+      let (w1, ls) := if rd then (w, []) else w.readAll ((t 0).map (·.obj))
+      let w2 := ls.foldl (fun w l => w.writeTo ((t 1).map (·.obj)) l) w1
+      helperOps tag t shellT rest (w2.note s!"D:{String.ofList tag}:{",".intercalate ((noDiag ls).map hexStr)}", true, st)
     | 'W' :: v => helperOps tag t shellT rest (w.writeTo ((t 1).map (·.obj)) v, rd, st)
     | 'E' :: v => helperOps tag t shellT rest (w.writeTo ((t 2).map (·.obj)) v, rd, st)
     | 'x' :: 's' :: v => (w, 128 + natOfStr v)
